@@ -223,8 +223,8 @@ def two_tables(tr, report):
                                                            % (direction, E.opname(tr.op), detail)))
 
 
-def spec(depth, ops=None, two=True):
-    return E.Spec(OPS.start_tables(), ops if ops is not None else OPS.all_ops(), depth,
+def spec(depth, ops=None, two=True, starts=None):
+    return E.Spec(starts if starts is not None else OPS.start_tables(), ops if ops is not None else OPS.all_ops(), depth,
                   check_ops=(), on_state=coherent, on_transition=two_tables if two else None,
                   label='d%d' % depth)
 
@@ -250,6 +250,11 @@ def run(run):
     sp2 = spec(d2, sub, two=not run.quick)      # quick: the two-table oracle runs on the full alphabet only
     sp2.label = 'inplace-d%d' % d2
     info2 = E.explore(run, sp2)
+    if not run.quick:
+        # tables that were read from a file (HDF5, JSON, classic text) instead of constructed
+        sp3 = spec(2, starts=OPS.loaded_start_tables())
+        sp3.label = 'loaded-d2'
+        E.explore(run, sp3)
     run.extra['alphabet'] = [E.opname(o) for o in OPS.all_ops()]
     run.extra['inplace_subalphabet'] = len(sub)
     run.extra['depth_completed'] = info['depth_completed']
@@ -261,4 +266,6 @@ def run(run):
 
 
 def replay(case):
-    return E.replay_history(spec(len(case['history'])), case)
+    st = dict(OPS.start_tables())
+    st.update(OPS.loaded_start_tables())
+    return E.replay_history(spec(len(case['history']), starts=st), case)
